@@ -5,7 +5,8 @@
    parse_lines = parse_script after line splitting; llines = the logical lines (index of first physical line, text);
    pfold = the fold of pstep over them (Model/ScriptX.v, proved equal to ploop in Proofs/ScriptFacts.v). *)
 From BS Require Import Model.Base Model.Regex Model.ExprParser Model.Script Model.ScriptX Model.PErr
-  Proofs.ScriptFacts Proofs.PErrFacts Proofs.C06 Proofs.C06Cols Proofs.C06Progress.
+  Proofs.ScriptFacts Proofs.PErrFacts Proofs.C06 Proofs.C06Cols Proofs.C06Progress Proofs.NumLit Proofs.Total.
+From BS Require Import Model.Num Gen.Unicode Gen.Regexes.
 
 (* ---- (1) accounting: an accepted text leaves nothing open and every logical line was folded exactly once ---- *)
 Theorem C06_accounts : forall chunks start s,
@@ -112,9 +113,42 @@ Theorem C06_total_partial : forall chunks start w,
     ((kind_host k w /\ w = U "ValueError") \/ (k = KEndIf /\ w = U "model: pending jump not found")).
 Proof. exact parse_script_host. Qed.
 Print Assumptions C06_total_partial.
-(* full statement: forall chunks start w, parse_script chunks start <> RHost w.  Missing: (a) float() accepts every text
-   matched by _R_EXPR_NUMBER (py_float never None there); (b) the pending jump of an if-frame is where the frame says
-   (C07's invariant on the statement list). *)
+(* the two residual branches are closed below: (a) float() accepts every text matched by _R_EXPR_NUMBER (Proofs/NumLit.v);
+   (b) the pending jump of an if-frame is where the frame says (Proofs/Total.v: an invariant on the POSITIONS of the pending
+   jumps, preserved by every lowering step of every program, with no premise on user label names). *)
+
+(* (a) the text captured by group 1 of the REGENERATED number-literal regex (sign? digit+ ('.' digit* )? ('e' sign digit+)?,
+   Unicode decimal digits included) is always accepted by the model of Python's float(str).  The proof inverts the match on
+   the regex VALUE of Gen/Regexes.v: a change of parser.py's _R_EXPR_NUMBER that changes its shape breaks this theorem. *)
+Theorem C06_number_literal_parses : forall text e c,
+  re_match UC R_EXPR_NUMBER text = MYes e c -> py_float (grp text c 1) <> None.
+Proof. exact number_literal_parses. Qed.
+Print Assumptions C06_number_literal_parses.
+
+Example C06_ex_number_literal : exists e c,
+  re_match UC R_EXPR_NUMBER (U "  -12.50e+3 + x") = MYes e c /\ grp (U "  -12.50e+3 + x") c 1 = U "-12.50e+3".
+Proof. eexists. eexists. split; vm_compute; reflexivity. Qed.
+
+(* the expression parser never lets a host exception (float()'s ValueError) escape *)
+Theorem C06_expr_parser_no_host : forall text w, parse_expression text <> EHost w.
+Proof. exact expr_parser_no_host. Qed.
+Print Assumptions C06_expr_parser_no_host.
+
+(* (b) one step never reports a host exception in a state reachable from the initial one (JInv: every open if/elif
+   branch without else points at a conditional jump of the statement list under construction) *)
+Theorem C06_step_invariant_init : JInv ps_init.
+Proof. exact JInv_init. Qed.
+Theorem C06_step_invariant_step : forall ps n line ps', JInv ps -> pstep ps n line = ROk ps' -> JInv ps'.
+Proof. exact pstep_jinv. Qed.
+Theorem C06_step_no_host : forall ps n line w, JInv ps -> pstep ps n line <> RHost w.
+Proof. exact pstep_no_host. Qed.
+Print Assumptions C06_step_no_host.
+
+(* FULL totality clause: for EVERY input the parser model returns a script, a BareScriptParserError, or runs out of the
+   model's fuel; no other exception escapes *)
+Theorem C06_total : forall chunks start w, parse_script chunks start <> RHost w.
+Proof. exact parse_script_total. Qed.
+Print Assumptions C06_total.
 
 Theorem C06_no_index_error : forall chunks start, parse_script chunks start <> RHost (U "IndexError").
 Proof. exact parse_script_no_index_error. Qed.
